@@ -120,7 +120,10 @@ PrintfScan(s) ==
                            ELSE IF afterWidth[1] \in PrintfDirectives
                                 THEN (IF AllIn(flags, {MINUS}) /\ Len(width) <= 4 THEN "valid" ELSE "unspec")
                            ELSE "unspec"
-               IN Worse(here, PrintfScan(Tail(afterWidth)))
+                   \* %A %C %T take one more character (the time field); what it may be is not part of the property
+                   timeDir == afterWidth[1] \in {65, 67, 84}
+               IN IF timeDir THEN Worse("unspec", PrintfScan(IF Len(afterWidth) >= 2 THEN SubSeq(afterWidth, 3, Len(afterWidth)) ELSE <<>>))
+                  ELSE Worse(here, PrintfScan(Tail(afterWidth)))
   ELSE PrintfScan(Tail(s))
 PrintfClass(s) == IF \E i \in DOMAIN s : s[i] >= 128 THEN "unspec" ELSE PrintfScan(s)
 
